@@ -122,15 +122,6 @@ func readEvents(path string) ([]Event, error) {
 
 	const maxEventLineBytes = 10 * 1024 * 1024
 
-	endsWithNewline := false
-	if info, err := file.Stat(); err == nil && info.Size() > 0 {
-		last := make([]byte, 1)
-		if _, err := file.ReadAt(last, info.Size()-1); err == nil {
-			endsWithNewline = last[0] == '\n'
-		}
-	}
-
-	verifPoint("read.probed", path)
 	var events []Event
 	scanner := bufio.NewScanner(file)
 	scanner.Buffer(make([]byte, 0, 64*1024), maxEventLineBytes)
@@ -170,6 +161,17 @@ func readEvents(path string) ([]Event, error) {
 	}
 
 	verifPoint("read.scanned", path)
+	// Probe for the final newline only after the scan: probing first let a
+	// writer that died mid-line between probe and scan turn a tolerable torn
+	// tail into a hard parse error for this reader.
+	endsWithNewline := false
+	if info, err := file.Stat(); err == nil && info.Size() > 0 {
+		last := make([]byte, 1)
+		if _, err := file.ReadAt(last, info.Size()-1); err == nil {
+			endsWithNewline = last[0] == '\n'
+		}
+	}
+	verifPoint("read.probed", path)
 	if pending != nil {
 		// Tolerate a truncated final line (common after crashes or partial writes).
 		// Only ignore when the file does not end in '\n'.
